@@ -1,1 +1,14 @@
-//! placeholder
+//! In-memory QUIC transport implementing `h3::quic`, whose every environment answer is a
+//! `explore::choose` call, plus a deterministic single-threaded executor.
+//!
+//! The world is closed: one `Net` holds every stream of one connection between side 0
+//! (client) and side 1 (server). A side is driven either by a real h3 endpoint (through the
+//! trait implementations in `conn`) or by a script acting directly on the `Net` (`raw`).
+
+pub mod conn;
+pub mod exec;
+pub mod net;
+
+pub use conn::{SimBidi, SimConn, SimOpener, SimRecv, SimSend};
+pub use exec::{Exec, Obs, Quiescence, Spawner};
+pub use net::{ConnErr, Net, NetCfg, Policy, CLIENT, SERVER};
